@@ -301,6 +301,123 @@ func RunLease(c *Case) *Result {
 	return res
 }
 
+// ---- hand-off episodes (C04): Locker A (provider 0) holds, Locker B (provider 1, same name) calls Lock() and is on its way
+// into the storage wait when A unlocks a few microseconds later - and then nobody touches the lock any more: B has to be
+// woken by that one Unlock. An episode in which B is still blocked 1.5 s later (the default lease is 10 s: B would get
+// the lock when the deleted record's lease would have run out) is a lost hand-off. Thousands of episodes per case, the
+// delay between B's call and A's Unlock sweeps 0..40 us. Judged with a sleep canary beside the episodes: an episode counts only if the canary was never more than 200 ms late.
+func runHandoffOnce(c *Case) (late int, worst time.Duration, episodes int, canaryMax time.Duration, setup string) {
+	f := c.Free
+	inner := inmem.New()
+	pa, pb := dist.NewKvsLockProvider(inner, "/locks/"), dist.NewKvsLockProvider(inner, "/locks/")
+	defer func() { pa.Shutdown(); pb.Shutdown() }()
+	la, lb := pa.NewLocker("H"), pb.NewLocker("H")
+	r := prng.New(c.SSeed, "lockdrv-handoff", 0)
+	var cm int64
+	stop := make(chan struct{})
+	go func() {
+		for {
+			select {
+			case <-stop:
+				return
+			default:
+			}
+			t := time.Now()
+			time.Sleep(time.Millisecond)
+			if l := int64(time.Since(t) - time.Millisecond); l > atomic.LoadInt64(&cm) {
+				atomic.StoreInt64(&cm, l)
+			}
+		}
+	}()
+	defer func() { close(stop); canaryMax = time.Duration(atomic.LoadInt64(&cm)) }()
+	deadline := time.Now().Add(time.Duration(f.DurMs) * time.Millisecond)
+	for ep := 0; ep < f.Rounds && time.Now().Before(deadline); ep++ {
+		episodes++
+		holder, waiter := la, lb
+		if ep%2 == 1 {
+			holder, waiter = lb, la
+		}
+		holder.Lock()
+		got := make(chan time.Time, 1)
+		started := make(chan struct{})
+		go func() {
+			close(started)
+			waiter.Lock()
+			got <- time.Now()
+		}()
+		<-started
+		for i := r.Intn(4000); i > 0; i-- { // 0..~40 us
+			_ = atomic.LoadInt64(&cm)
+		}
+		holder.Unlock()
+		freed := time.Now()
+		select {
+		case t := <-got:
+			if d := t.Sub(freed); d > worst {
+				worst = d
+			}
+		case <-time.After(1500 * time.Millisecond):
+			late++
+			select {
+			case t := <-got:
+				if d := t.Sub(freed); d > worst {
+					worst = d
+				}
+			case <-time.After(15 * time.Second):
+				return late, 20 * time.Second, episodes, 0, "" // never: reported as the worst case
+			}
+		}
+		waiter.Unlock()
+	}
+	return
+}
+
+func RunHandoff(c *Case) *Result {
+	res := &Result{Counts: map[string]int{}, Complete: true}
+	lateRuns, eps := 0, 0
+	var worst time.Duration
+	var cmax time.Duration
+	for attempt := 0; attempt < 3; attempt++ {
+		late, w, n, cm, setup := runHandoffOnce(c)
+		if setup != "" {
+			res.Discard = setup
+			return res
+		}
+		eps += n
+		if late > 0 && cm < 200*time.Millisecond {
+			lateRuns++
+			if w > worst {
+				worst, cmax = w, cm
+			}
+			break // one such episode is conclusive: the canary shows that goroutines were being scheduled all the while
+		}
+		if late == 0 {
+			break
+		}
+	}
+	if lateRuns >= 1 {
+		res.Direct = append(res.Direct, Direct{What: "hand-off: a blocked caller did not get the lock its holder released", Detail: fmt.Sprintf(
+			"hand-off episodes: Locker B was on its way into the storage wait when A unlocked, nobody else touched the lock; B got it only %v later (a sleep canary beside it was never more than %v late, so goroutines were being scheduled)",
+			worst.Round(time.Millisecond), cmax.Round(time.Millisecond))})
+	}
+	res.Counts["handoff:episodes"] += eps
+	res.Nontrivial = eps >= 3
+	res.Steps = eps
+	res.Coq = fmt.Sprintf("mkCase @ID@%%N %d [0;1] %t [Free %d%%N %d%%N 1%%N]", c.NT, res.Complete, 2*eps, 2*eps)
+	return res
+}
+
+func handoffCase(prop string, seed uint64, i int, thorough bool) Case {
+	r := prng.New(seed, prop+"-handoff", uint64(i))
+	c := Case{Prop: prop, SSeed: r.U64(), Ops: []Op{}, Prov: []int{0, 1}, NT: 2}
+	f := &Free{G: []int{0, 1}, Rounds: 4000, Scn: "handoff", DurMs: 600}
+	if thorough {
+		f.Rounds, f.DurMs = 40000, 5000
+	}
+	c.Free = f
+	return c
+}
+
 // leaseCase draws the parameters of the i-th lease scenario
 func leaseCase(prop string, seed uint64, i int) Case {
 	r := prng.New(seed, prop+"-lease", uint64(i))
